@@ -57,14 +57,15 @@ class MessageDecoder(metaclass=ABCMeta):
         custom = cls.registry.get(hdr_str)
         if custom is not None:
             return custom
-        elif hdr_str in ('7bit', '8bit'):
+        elif hdr_str in ('7bit', '8bit', 'binary'):
             return _NoopDecoder()
         elif hdr_str == 'quoted-printable':
             return _QuotedPrintableDecoder()
         elif hdr_str == 'base64':
             return _Base64Decoder()
         else:
-            raise NotImplementedError(hdr_str)
+            # Unknown encodings cannot be decoded, return the body as-is.
+            return _NoopDecoder()
 
     @abstractmethod
     def decode(self, body: MessageBody) -> Writeable:
